@@ -106,7 +106,7 @@ def opt_structure(b, progs):
 def run(rep, tier, pid, gover="1.21", n=None):
     rng = random.Random(C.seed() * 86028121 + int(pid[1:]))
     if n is None:
-        n = 150 if tier == "quick" else 1500
+        n = 150 if tier == "quick" else 400   # one Compile run: the real optimiser is quadratic in the number of files
     progs = cdiff.gen_programs(rng, n, feats={"postyield", "vars", "closures", "range", "yieldfrom"})
     # control-flow-only programs for the structural correspondence of the optimiser model (coq/Opt.v);
     # a third of their yields become yields of a literal (the Delay around Bind(<literal>, ..) is elided)
